@@ -16,6 +16,7 @@ from vf.core import Result, chunks
 from models import scalar as M
 
 import yaql
+from yaql.language import contexts, utils
 from yaql.language import exceptions as yexc
 
 ID = 'C15'
@@ -26,8 +27,9 @@ RULE = ('all (operator, a, b) over the corpus, as variables and as literals; a c
         'observed table for all pairs and all triples')
 ASSUMPTIONS = ['CPython int/float arithmetic is the reference for exact integer and IEEE float results',
                'NaN and infinities are not part of the corpus (not spellable as YAQL data in the statement)']
-BOUNDS = {'quick': 'corpus Q (48 values): all pairs x 15 binary ops x {var, literal}, all triples for transitivity on observed table',
-          'thorough': 'corpus T (~110 values): all pairs x 15 binary ops x {var, literal}, all triples'}
+BOUNDS = {'quick': 'corpus Q (50 values): all pairs x 15 binary ops x {variables of a child context, literals, mixed, variables of a LinkedContext scope, '
+                   'of two MultiContext members, two layers up a context chain, left operand as the data $}, all triples for transitivity on observed table',
+          'thorough': 'corpus T (~110 values): all pairs x 15 binary ops x the same seven operand deliveries, all triples'}
 
 CORPUS_Q = [
     'None', 'True', 'False',
@@ -98,16 +100,40 @@ def setup():
     return _state
 
 
-def observe(text, a=None, b=None):
+DELIVERIES = ('linked', 'multi', 'chain', 'data')
+
+
+def deliver(root, a, b, how):
+    """The context an expression over $a and $b (for 'data': $ and $b) is evaluated in."""
+    if how == 'linked':         # a host scope object linked in front of the library
+        scope = contexts.Context()
+        scope['a'] = a
+        scope['b'] = b
+        return contexts.LinkedContext(root, scope).create_child_context(), utils.NO_VALUE
+    if how == 'multi':          # the operands live in two members of one MultiContext
+        m1, m2 = contexts.Context(root), contexts.Context(root)
+        m1['a'] = a
+        m2['b'] = b
+        return contexts.MultiContext([m1, m2]).create_child_context(), utils.NO_VALUE
+    c = root.create_child_context()
+    if how == 'data':
+        c['b'] = b
+        return c, a
+    c['a'] = a
+    c['b'] = b
+    if how == 'chain':          # found two layers up, through an empty layer
+        c = c.create_child_context().create_child_context()
+    return c, utils.NO_VALUE
+
+
+def observe(text, a=None, b=None, how='child'):
     s = setup()
     st = s['st'].get(text)
     if st is None:
         st = s['st'][text] = s['eng'](text)
-    c = s['root'].create_child_context()
-    c['a'] = a
-    c['b'] = b
+    c, data = deliver(s['root'], a, b, how)
     try:
-        return ('v', st.evaluate(context=c))
+        return ('v', st.evaluate(data=data, context=c))
     except (yexc.NoMatchingFunctionException, yexc.NoMatchingMethodException):
         return M.NOMATCH
     except ZeroDivisionError:
@@ -156,6 +182,7 @@ def job_pairs(tier, a_slice):
                 if la is not None and lb is not None:
                     forms.append(('lit', '%s %s %s' % (la, op, lb)))
                     forms.append(('mixed', '$a %s %s' % (op, lb)))
+                forms += [(how, ('$ %s $b' if how == 'data' else '$a %s $b') % op) for how in DELIVERIES]
                 for form, text in forms:
                     res.case((form, op, sa, sb))
                     if op == '*' and resource_question(a, b):
@@ -164,7 +191,7 @@ def job_pairs(tier, a_slice):
                         res.out_of_domain += 1
                         res.outcomes['ood: repetition count beyond the model bound (not executed)'] += 1
                         continue
-                    obs = observe(text, a, b)
+                    obs = observe(text, a, b, form if form in DELIVERIES else 'child')
                     res.evaluations += 1
                     res.transitions += 1
                     if form == 'var':
@@ -177,7 +204,7 @@ def job_pairs(tier, a_slice):
                     res.outcomes['%s %s' % (op, obs[1] if obs[0] == 'e' else 'value:' + M.kind(obs[1]))] += 1
                     if not agree(obs, exp):
                         res.fail(classify(op, M.kind(a), M.kind(b), obs, exp, form),
-                                 {'kind': 'binary', 'text': text, 'a': sa, 'b': sb, 'op': op},
+                                 {'kind': 'binary', 'text': text, 'a': sa, 'b': sb, 'op': op, 'form': form},
                                  'observed %r expected %r' % (obs, exp))
             if len(res.samples) < 2 and sb == vals[len(vals) // 3]:
                 res.sample({'text': '$a * $b', 'a': sa, 'b': sb,
@@ -317,7 +344,8 @@ def replay(case):
     k = case['kind']
     if k in ('binary',):
         a, b = val(case['a']), val(case['b'])
-        obs = observe(case['text'], a, b)
+        form = case.get('form')
+        obs = observe(case['text'], a, b, form if form in DELIVERIES else 'child')
         exp = M.binary(case['op'], a, b)
         return {'observed': repr(obs), 'expected': repr(exp), 'ok': exp is None or agree(obs, exp)}
     if k == 'unary':
